@@ -27,6 +27,15 @@ import (
 
 const VerifDir = "/verif"
 
+// outDir is where evidence/ and replays/ are written: /verif, or $VERIF_OUT for mutation
+// experiments (tools/mutate.sh) so that they never overwrite real evidence.
+func outDir() string {
+	if d := os.Getenv("VERIF_OUT"); d != "" {
+		return d
+	}
+	return VerifDir
+}
+
 // Check is one run of one property's check binary.
 type Check struct {
 	ID    string
@@ -281,7 +290,7 @@ func (c *Check) Violation(key, what string, replay interface{}) {
 	body := map[string]interface{}{"property": c.ID, "key": key, "what": what, "case": replay, "tier": c.Tier}
 	js, _ := json.MarshalIndent(body, "", " ")
 	sum := sha1.Sum([]byte(key))
-	path := filepath.Join(VerifDir, "replays", c.ID+"-"+hex.EncodeToString(sum[:6])+".json")
+	path := filepath.Join(outDir(), "replays", c.ID+"-"+hex.EncodeToString(sum[:6])+".json")
 	os.MkdirAll(filepath.Dir(path), 0o755)
 	os.WriteFile(path, js, 0o644)
 	fmt.Printf("VIOLATION property=%s replay=%s\n", c.ID, path)
@@ -355,8 +364,8 @@ func (c *Check) Finish() {
 		"wall_s": time.Since(c.start).Seconds(), "violations": c.violations,
 	}
 	js, _ := json.MarshalIndent(out, "", " ")
-	os.MkdirAll(filepath.Join(VerifDir, "evidence"), 0o755)
-	os.WriteFile(filepath.Join(VerifDir, "evidence", c.ID+".json"), js, 0o644)
+	os.MkdirAll(filepath.Join(outDir(), "evidence"), 0o755)
+	os.WriteFile(filepath.Join(outDir(), "evidence", c.ID+".json"), js, 0o644)
 	v := c.violations
 	fmt.Printf("%s tier=%s evaluations=%d distinct_nontrivial=%d states=%d transitions=%d exhaustive=%v violations=%d wall=%.1fs\n",
 		c.ID, c.Tier, ev, nontriv, c.counters["states"], c.counters["transitions"], c.exhaustive, v, time.Since(c.start).Seconds())
